@@ -590,6 +590,12 @@ for _text_limit in ("maxstring", "maxother"):
 """, """            is_init=False,
 """),
     ],
+    "mutants/c07_fix_blank_after_at_sign_reverted": [
+        (REPR, '_DECORATOR_RE = re.compile(r"^\\s*@\\s*[a-zA-Z_(]")\n', '_DECORATOR_RE = re.compile(r"^\\s*@[a-zA-Z_]")\n'),
+    ],
+    "mutants/c07_decorator_re_max_4_blanks": [
+        (REPR, '_DECORATOR_RE = re.compile(r"^\\s*@\\s*[a-zA-Z_(]")\n', '_DECORATOR_RE = re.compile(r"^\\s{0,4}@\\s*[a-zA-Z_(]")\n'),
+    ],
     "mutants/c14_fix_unreadable_class_attribute_reverted": [
         (CHK, """        try:
             value = getattr(cls, name)
